@@ -444,6 +444,12 @@ def corpus(tier):
                 out.append(base_plan(chain=chain and list(chain), downloads=[
                     dict(dl(0, song.replace('{peer}', 'bob'), qd=1.0), first_reset=cut),
                     dl(1, song.replace('{peer}', 'carol'), at=off, cd=0.05, size=300000)]))
+    # 1c. the download directory setting is changed while the client runs: later choices lie inside the new directory
+    for chain in [None] + SOUND[:2]:
+        for at in (0.5, 1.5):
+            out.append(base_plan(chain=chain and list(chain), move_dir={'at': at}, downloads=[
+                dl(0, song.replace('{peer}', 'bob')), dl(1, song.replace('{peer}', 'carol'), at=2.5),
+                dl(2, 'other\\album\\track.mp3', at=3.0)]))
     # 2. enumerated axis: chain x input class x {empty directory, natural name taken}; two downloads, the second one
     #    after the first has finished (sequential) so that every verdict is about the input, not the schedule
     for chain in [None] + CHAINS:
@@ -589,6 +595,9 @@ def _run(world: World, plan):
     abs_dir = world.sandbox.sub(*ABS_LEVELS)
     dl_real = real(dl_dir)
     dl_rel = dl_real[len(sb_root) + 1:]
+    # the application may point the setting to another directory while the client runs (plan['move_dir'])
+    dl_dir2 = world.sandbox.sub('alice', *LEVELS, 'downloads2')
+    dl_now = {'real': dl_real}
     # chain None = the library's own default chain; documented (USAGE.rst, "File naming") as: original file name, a number
     # is added when the file already exists - i.e. default + number-duplicates
     chain = list(plan['chain']) if plan.get('chain') is not None else ['D', 'N']
@@ -689,7 +698,7 @@ def _run(world: World, plan):
             res['bad'] = True
             world.violate('C09.bad_name', name=name, last=ic['last'], **cf)
             return res
-        if not rp.startswith(dl_real + os.sep):
+        if not rp.startswith(dl_now['real'] + os.sep):
             res['inside'] = False
             world.violate('C09.escape', parent=ic['parent'], last=ic['last'], keepdir='K' in chain)
         if rel is not None:
@@ -787,7 +796,15 @@ def _run(world: World, plan):
         state['base'] = snapshot(sb_root)
         state['prev'] = {rel: kind for rel, (kind, _) in state['base'].items()}
         state['armed'] = True
-        await asyncio.gather(*[asyncio.ensure_future(start(d)) for d in downloads])
+        async def move_dir():
+            mv = plan.get('move_dir')
+            if not mv:
+                return
+            await asyncio.sleep(float(mv['at']))
+            world.net.fired['download_directory_setting_changed'] += 1
+            alice.settings.shares.download = dl_dir2
+            dl_now['real'] = real(dl_dir2)
+        await asyncio.gather(move_dir(), *[asyncio.ensure_future(start(d)) for d in downloads])
         t_end = loop.time() + HORIZON
         while loop.time() < t_end:
             await asyncio.sleep(0.5)
@@ -848,6 +865,8 @@ def _run(world: World, plan):
     # nothing created or modified outside the download directory
     inside_prefix = dl_rel + os.sep
     for rel in sorted(set(base) | set(final)):
+        if plan.get('move_dir') and (rel == dl_rel + '2' or rel.startswith(dl_rel + '2' + os.sep)):
+            continue        # the second configured directory
         if rel == dl_rel or rel.startswith(inside_prefix):
             if rel in base and base[rel][0] == 'f' and final.get(rel) != base[rel]:
                 # a pre-existing file inside the directory changed: effect of a choice that existed
